@@ -110,7 +110,7 @@ package sm
 //@   requires smok(sm) && c != nil && isptr(c) && reqok(m) && cer != nil && ostateok(cer)
 //@   assume default_dictionary_initialised: dict.Default != nil && pwf(dict.Default)
 //@   assumepre WriteTo: the CEA built from the settings fits a Diameter message (below 2^24 bytes, fewer than 65536 AVPs) and the bytes written on the connection so far are below 2^44
-//@   modifies written(c), wstream(c), wlog(c)[written(c):written(c)+(1<<24)], bufslice(any), bytes(any), inpool(any), lastsent(c)
+//@   modifies written(c), wstream(c), wlog(c)[written(c):written(c)+(1<<24)], bufslice(any), bytes(any), inpool(any), lastsent(c), sends(c)
 //@   ensures [C11] sent_or_failed: err == nil ==> fresh(lastsent(c))
 //@   ensures [C11] nothing_else_sent: !fresh(lastsent(c)) ==> lastsent(c) == old(lastsent(c)) && err != nil
 //@   ensures [C11] failure_code_matches_the_cause: fresh(lastsent(c)) ==> hasresult(lastsent(c)) && resultcode(lastsent(c)) == codefor(errMessage)
@@ -137,7 +137,7 @@ package sm
 //@   assume default_dictionary_initialised: dict.Default != nil && pwf(dict.Default)
 //@   assumepre WriteTo: the CEA built from the settings fits a Diameter message (below 2^24 bytes, fewer than 65536 AVPs) and the bytes written on the connection so far are below 2^44
 //@   assumepre NewAVP.nongroup: the Vendor-Specific-Application-Id group is added by the same code path as any other AVP; Message.NewAVP's contract is proved for non-grouped data only and is assumed here for this freshly built two-member group
-//@   modifies written(c), wstream(c), wlog(c)[written(c):written(c)+(1<<24)], bufslice(any), bytes(any), inpool(any), lastsent(c)
+//@   modifies written(c), wstream(c), wlog(c)[written(c):written(c)+(1<<24)], bufslice(any), bytes(any), inpool(any), lastsent(c), sends(c)
 //@   ensures [C11] sent_or_failed: err == nil ==> fresh(lastsent(c))
 //@   ensures [C11] nothing_else_sent: !fresh(lastsent(c)) ==> lastsent(c) == old(lastsent(c)) && err != nil
 //@   ensures [C11] success_code: fresh(lastsent(c)) ==> hasresult(lastsent(c)) && resultcode(lastsent(c)) == 2001
@@ -173,7 +173,7 @@ package sm
 //@   requires smok(sm) && c != nil && isptr(c) && reqok(m) && !closed(sm.hsNotifyc)
 //@   requires apps_listed: forall i int :: 0 <= i && i < len(sm.supportedApps) ==> sm.supportedApps[i] != nil
 //@   modifies connctx(c), connclosed(c), reports(), unmarshalled(m), cerverdict(m), cerof(m),
-//@            written(c), wstream(c), wlog(c)[written(c):written(c)+(1<<24)], bufslice(any), bytes(any), inpool(any), lastsent(c), fresh
+//@            written(c), wstream(c), wlog(c)[written(c):written(c)+(1<<24)], bufslice(any), bytes(any), inpool(any), lastsent(c), sends(c), fresh
 //@   ensures [C11] retransmission_ignored: old(hs(c)) ==> connctx(c) == old(connctx(c)) && lastsent(c) == old(lastsent(c)) && connclosed(c) == old(connclosed(c)) && reports() == old(reports())
 //@   ensures [C11] rejected_closes_without_metadata: !old(hs(c)) && cerverdict(m) != nil ==> connclosed(c) && connctx(c) == old(connctx(c))
 //@   ensures [C11] rejected_gets_matching_code: !old(hs(c)) && cerverdict(m) != nil && fresh(lastsent(c)) ==>
@@ -200,4 +200,147 @@ package sm
 //@   ensures [C10] application_handlers_only_through_the_gate: handlercalls() == old(handlercalls()) + 1 ==>
 //@           typeis(lasthandler(), handshakeOK) || (forall h diam.Handler :: h == lasthandler() ==> old(ownentry(sm, h)))
 //@   ensures [C10] same_connection_and_message: handlercalls() == old(handlercalls()) + 1 ==> lastconn() == c && lastmsg() == m
+//@ end
+//@
+//@ # ======================= client side: the CEA handler (C10, C12) ============
+//@ # free variables: sm, errc (the per-dial result channel: the handler closes it on success, sends the error otherwise)
+//@ func handleCEA$1(c, m)
+//@   property C10 C12
+//@   requires smok(sm) && c != nil && isptr(c) && reqok(m) && !closed(sm.hsNotifyc)
+//@   requires result_channel_open_until_the_handshake_is_done: errc != nil && (hs(c) || !closed(errc))
+//@   modifies connctx(c), unmarshalled(m), ceaverdict(m), ceaof(m), closed(errc), fresh
+//@   ensures [C12] further_ceas_are_ignored: old(hs(c)) ==> connctx(c) == old(connctx(c)) && closed(errc) == old(closed(errc))
+//@   ensures [C10 C12] metadata_iff_accepted: !old(hs(c)) ==> (hs(c) <==> ceaverdict(m) == nil)
+//@   ensures [C12] success_closes_the_result_channel: !old(hs(c)) && ceaverdict(m) == nil ==> closed(errc)
+//@   ensures [C12] failure_leaves_the_context: !old(hs(c)) && ceaverdict(m) != nil ==> connctx(c) == old(connctx(c)) && !closed(errc)
+//@   ensures [C12] metadata_is_the_peers: !old(hs(c)) && hs(c) ==> metaof(c) != nil && metaof(c).OriginHost == ceaof(m).OriginHost &&
+//@           metaof(c).OriginRealm == ceaof(m).OriginRealm && sameslice(metaof(c).Applications, ceaof(m).appID)
+//@ end
+//@
+//@ # ======================= watchdog (C13) ======================================
+//@ # the DWR handler (free variable sm).  NOTE: when Settings.OriginStateID is set the handler appends an Origin-State-Id
+//@ # AVP to the REQUEST m, not to the answer (m.NewAVP where a.NewAVP was meant); the frame below says so.
+//@ func handleDWR$1(c, m)
+//@   property C13 C16
+//@   absidx
+//@   requires smok(sm) && c != nil && isptr(c) && reqok(m)
+//@   assume default_dictionary_initialised: dict.Default != nil && pwf(dict.Default)
+//@   assumepre WriteTo: the three-AVP DWA built from the settings fits a Diameter message and the bytes written on the connection so far are below 2^44
+//@   modifies reports(), unmarshalled(m), dwrverdict(m), m.AVP, m.Header.MessageLength, m.AVP[len(m.AVP):cap(m.AVP)],
+//@            written(c), wstream(c), wlog(c)[written(c):written(c)+(1<<24)], bufslice(any), bytes(any), inpool(any), lastsent(c), sends(c), fresh
+//@   ensures [C13] rejected_is_reported_not_answered: dwrverdict(m) != nil ==> lastsent(c) == old(lastsent(c)) && reports() == old(reports()) + 1
+//@   ensures [C13] accepted_is_answered: dwrverdict(m) == nil ==> fresh(lastsent(c))
+//@   ensures [C13] the_answer_is_a_success_dwa: fresh(lastsent(c)) ==> hasresult(lastsent(c)) && resultcode(lastsent(c)) == 2001 && identified(lastsent(c), sm.cfg)
+//@   ensures [C13 C16] request_ids_mirrored: fresh(lastsent(c)) ==> mirrors(lastsent(c), m) && lastsent(c).Header.CommandFlags == old(m.Header.CommandFlags) &^ 0x80
+//@ end
+//@
+//@ # the DWA handler (free variables sm, dwac): a parse failure is reported; nothing else is touched.  The acknowledgement
+//@ # itself is a non-blocking channel send, which the sequential fragment does not observe.
+//@ func handleDWA$1(c, m)
+//@   property C13
+//@   requires smok(sm) && c != nil && m != nil && !closed(dwac)
+//@   modifies reports(), unmarshalled(m), dwaverdict(m), dwaof(m), fresh
+//@   ensures [C13] malformed_answer_is_reported: dwaverdict(m) != nil ==> reports() == old(reports()) + 1
+//@   ensures [C13] otherwise_silent: dwaverdict(m) == nil ==> reports() == old(reports())
+//@ end
+//@
+//@ # ======================= client: watchdog requests (C13) ====================
+//@ spec cliok(cli *Client) bool = cli != nil && smok(cli.Handler) && (cli.Dict != nil ==> pwf(cli.Dict))
+//@ # a request that starts with the identity AVPs from the local settings
+//@ spec reqidentified(a *diam.Message, cfg *Settings) bool = len(a.AVP) >= 2 &&
+//@      a.AVP[0].Code == 264 && typeis(a.AVP[0].Data, datatype.DiameterIdentity) && a.AVP[0].Data.(datatype.DiameterIdentity) == cfg.OriginHost &&
+//@      a.AVP[1].Code == 296 && typeis(a.AVP[1].Data, datatype.DiameterIdentity) && a.AVP[1].Data.(datatype.DiameterIdentity) == cfg.OriginRealm
+//@ spec isdwr(a *diam.Message, cfg *Settings) bool = a != nil && a.Header != nil && a.Header.CommandCode == 280 && a.Header.CommandFlags == 0x80 && a.Header.ApplicationID == 0 && reqidentified(a, cfg)
+//@
+//@ func (*Client).makeDWR(cli, osid) (m)
+//@   property C13
+//@   absidx
+//@   requires cliok(cli)
+//@   assume default_dictionary_initialised: dict.Default != nil && pwf(dict.Default)
+//@   modifies
+//@   ensures [C13] a_watchdog_request_with_the_identity: fresh(m) && isdwr(m, cli.Handler.cfg)
+//@ end
+//@
+//@ func (*Client).dwr(cli, c, osid, dwac)
+//@   property C13
+//@   requires cliok(cli) && c != nil && isptr(c) && cli.MaxRetransmits < 1<<62 && 0 <= sends(c) && sends(c) < 1<<62 && 0 <= written(c)
+//@   assume default_dictionary_initialised: dict.Default != nil && pwf(dict.Default)
+//@   assumepre WriteToStream: the DWR built from the settings fits a Diameter message and the bytes written on the connection so far are below 2^44
+//@   modifies recvs(dwac), sends(c), lastsent(c), connclosed(c), written(c), wstream(c), wlog(c)[written(c):1<<45], bufslice(any), bytes(any), inpool(any), fresh
+//@   ensures [C13] bounded_retransmission: old(sends(c)) <= sends(c) && sends(c) <= old(sends(c)) + int(cli.MaxRetransmits) + 1
+//@   ensures [C13] closes_only_after_the_last_retransmission: connclosed(c) != old(connclosed(c)) ==> connclosed(c) && sends(c) == old(sends(c)) + int(cli.MaxRetransmits) + 1
+//@   ensures [C13] an_answered_request_never_closes: recvs(dwac) != old(recvs(dwac)) ==> connclosed(c) == old(connclosed(c))
+//@   ensures [C13] the_same_request_each_time: sends(c) > old(sends(c)) ==> fresh(lastsent(c)) && isdwr(lastsent(c), cli.Handler.cfg)
+//@   loop 0
+//@     invariant 0 <= i && i <= int(cli.MaxRetransmits) + 1
+//@     invariant [C13] one_send_per_round: sends(c) == old(sends(c)) + i && connclosed(c) == old(connclosed(c)) && written(c) >= old(written(c))
+//@     invariant [C13] same_request: fresh(m) && isdwr(m, cli.Handler.cfg) && (i > 0 ==> lastsent(c) == m)
+//@     invariant [C13] no_answer_so_far: recvs(dwac) == old(recvs(dwac))
+//@   end
+//@ end
+//@
+//@ # ======================= client: the CER and the handshake loop (C12) =========
+//@ spec iscer(a *diam.Message, cfg *Settings) bool = a != nil && a.Header != nil && a.Header.CommandCode == 257 && a.Header.CommandFlags == 0x80 && a.Header.ApplicationID == 0 && reqidentified(a, cfg)
+//@
+//@ func (*Client).makeCER(cli, hostIPAddresses) (m)
+//@   property C12
+//@   absidx
+//@   requires cliok(cli)
+//@   assume default_dictionary_initialised: dict.Default != nil && pwf(dict.Default)
+//@   assumepre AddAVP: the AVPs the application put into the Client's lists are non-nil and carry valid data (Client.validate already dereferences them); Vendor-Specific-Application-Id AVPs are groups, for which Message.AddAVP's contract is not proved and is assumed here
+//@   modifies
+//@   ensures [C12] a_capabilities_exchange_request_with_the_identity: fresh(m) && iscer(m, cli.Handler.cfg)
+//@   loop 0
+//@     invariant 0 - 1 <= rangeindex && rangeindex < len(hostIPAddresses)
+//@     invariant built: fresh(m) && fresh(m.Header) && iscer(m, cli.Handler.cfg) && m.dictionary == cli.Dict && fresh(m.AVP)
+//@   end
+//@   loop 1
+//@     invariant 0 - 1 <= rangeindex && rangeindex < len(cli.SupportedVendorID)
+//@     invariant built: fresh(m) && fresh(m.Header) && iscer(m, cli.Handler.cfg) && m.dictionary == cli.Dict && fresh(m.AVP)
+//@   end
+//@   loop 2
+//@     invariant 0 - 1 <= rangeindex && rangeindex < len(cli.AuthApplicationID)
+//@     invariant built: fresh(m) && fresh(m.Header) && iscer(m, cli.Handler.cfg) && m.dictionary == cli.Dict && fresh(m.AVP)
+//@   end
+//@   loop 3
+//@     invariant 0 - 1 <= rangeindex && rangeindex < len(cli.AcctApplicationID)
+//@     invariant built: fresh(m) && fresh(m.Header) && iscer(m, cli.Handler.cfg) && m.dictionary == cli.Dict && fresh(m.AVP)
+//@   end
+//@   loop 4
+//@     invariant 0 - 1 <= rangeindex && rangeindex < len(cli.VendorSpecificApplicationID)
+//@     invariant built: fresh(m) && fresh(m.Header) && iscer(m, cli.Handler.cfg) && m.dictionary == cli.Dict && fresh(m.AVP)
+//@   end
+//@ end
+//@
+//@ func handleCEA(sm, errc) (h)
+//@   property C12
+//@   modifies
+//@   ensures made: h != nil
+//@ end
+//@ func handleDWA(sm, dwac) (h)
+//@   property C13
+//@   modifies
+//@   ensures made: h != nil
+//@ end
+//@
+//@ # The handshake loop, sequentially: how many times the CER is handed to the transport, that it is the same CER, and
+//@ # that every failure path closes the connection.  What arrives on errc comes from another goroutine (the CEA handler,
+//@ # see handleCEA$1) and is an arbitrary value here; the spacing of retransmissions in time is not modelled.
+//@ func (*Client).handshake(cli, c) (rc, err)
+//@   property C12
+//@   requires cliok(cli) && muxwf(cli.Handler.mux) && diam.ALL_CMD_INDEX == allidx() && c != nil && isptr(c) && cli.MaxRetransmits < 1<<62 && 0 <= sends(c) && sends(c) < 1<<62 && 0 <= written(c)
+//@   assume default_dictionary_initialised: dict.Default != nil && pwf(dict.Default)
+//@   assumepre WriteTo: the CER built from the settings fits a Diameter message and the bytes written on the connection so far are below 2^44
+//@   modifies sends(c), lastsent(c), connclosed(c), written(c), wstream(c), wlog(c)[written(c):1<<45], bufslice(any), bytes(any), inpool(any),
+//@            mapof(cli.Handler.mux.idxMap), mapof(cli.Handler.mux.m), wlocked(&cli.Handler.mux.mu), fresh
+//@   ensures [C12] at_most_max_retransmits_plus_one: old(sends(c)) <= sends(c) && sends(c) <= old(sends(c)) + int(cli.MaxRetransmits) + 1
+//@   ensures [C12] failure_closes_the_transport: err != nil ==> connclosed(c) && rc == nil
+//@   ensures [C12] success_returns_the_open_connection: err == nil ==> rc == c && connclosed(c) == old(connclosed(c)) && sends(c) > old(sends(c))
+//@   ensures [C12] the_same_cer_each_time: sends(c) > old(sends(c)) ==> fresh(lastsent(c)) && iscer(lastsent(c), cli.Handler.cfg)
+//@   loop 0
+//@     invariant 0 <= i && i <= int(cli.MaxRetransmits) + 1
+//@     invariant [C12] one_send_per_round: sends(c) == old(sends(c)) + i && connclosed(c) == old(connclosed(c)) && written(c) >= old(written(c))
+//@     invariant [C12] same_request: fresh(m) && iscer(m, cli.Handler.cfg) && (i > 0 ==> lastsent(c) == m)
+//@     invariant errc != nil && !closed(errc)
+//@   end
 //@ end
